@@ -146,8 +146,8 @@ def check_object(acc, cls, o, path, seed_id, attribution=None):
         dp = canon.first_diff(d1, d2)
         own = owner_of(target, dp)
         leaf = generic_path(dp).rsplit('.', 1)[-1]
-        acc.violation('not_equal:%s:%s:%s' % (compose_definer(own), leaf,
-                                              kind_of(('not_equal', compose_definer(own), leaf))),
+        acc.violation('not_equal:%s:%s:%s:%s' % (compose_definer(own), leaf, canon.diff_kind(d1, d2),
+                                                 kind_of(('not_equal', compose_definer(own), leaf))),
                       'parsed %s differs from the original at %s' % (cls.__name__, dp), w)
     try:
         if not needs_terminator(cls):
